@@ -114,6 +114,18 @@ def run_case(case):
             Ls = [(rng.normal(size=(2, 2)) + 1j * rng.normal(size=(2, 2))) * rng.uniform(0.05, 1.5) for _ in range(nj)]
             if nj and rng.random() < 0.3:  # structured ones as produced by the noise models
                 Ls[0] = np.array([[0, 1], [0, 0]], dtype=complex) * rng.uniform(0.1, 1)
+            for j_ in range(nj):  # exact structure invites special-cased kernels: diagonal with a complex relative phase, triangular, Hermitian, real
+                u_ = rng.random()
+                if u_ < 0.15:
+                    Ls[j_] = np.diag(np.diag(Ls[j_]))
+                elif u_ < 0.25:
+                    Ls[j_] = np.triu(Ls[j_], 1)
+                elif u_ < 0.35:
+                    Ls[j_] = np.tril(Ls[j_], -1)
+                elif u_ < 0.42:
+                    Ls[j_] = Ls[j_] + Ls[j_].conj().T
+                elif u_ < 0.5:
+                    Ls[j_] = Ls[j_].real.astype(complex)
             jumps = ref.local_jumps(Ls, n)
             x = rng.normal(size=(D, D)) + 1j * rng.normal(size=(D, D))
             rho = x + x.conj().T  # Hermitian, not PSD: the generator is linear
